@@ -267,6 +267,7 @@ class Gen:
         self.root = "programs/whirlpool/src"
         self.tags = []
         self.frags_done = []
+        self.substs = []
         self.assumptions = []  # free-text assumptions declared by fragments
         self.stubs = []
 
@@ -299,6 +300,7 @@ class Gen:
         path = self.frag_path(name)
         lines = open(path, encoding="utf-8").read().split("\n")
         self.tags = []
+        self.substs = []
         self.root = "programs/whirlpool/src"
         i = 0
         rel_tpl = os.path.relpath(path, VERIF)
@@ -322,6 +324,9 @@ class Gen:
                     self.log.append(f"note: dependency source root {self.root}")
             elif cmd == "tags":
                 self.tags = [t for t in toks]
+            elif cmd == "subst":
+                # fragment-wide logged rewrite applied to every function body extracted after this line
+                self.substs.append((rx(toks[0]), rx(toks[2])))
             elif cmd == "assume":
                 self.assumptions.append(" ".join(toks))
             elif cmd in ("const", "static"):
@@ -451,7 +456,7 @@ class Gen:
                                          rep=r"let mut \1_rev: usize = \3; while \1_rev > \2 { \1_rev = \1_rev - 1; let \1 = \1_rev;",
                                          count=cnt, tl=tl))
                     cur = ("none", None)
-                elif c in ("rewrite_for", "rewrite_enum", "rewrite_enum_mut", "rewrite_iter_mut", "rewrite_iter"):
+                elif c in ("rewrite_for", "rewrite_enum", "rewrite_enum_mut", "rewrite_iter_mut", "rewrite_iter", "rewrite_iter_mut_ref"):
                     cnt = int(t[0]) if t else 1
                     pats = {
                         # R1/R2/R3: Verus has no Enumerate/IterMut specs and no `continue` in for-loops; index-based while loops are equivalent
@@ -462,6 +467,8 @@ class Gen:
                         "rewrite_enum_mut": (r"for \((\w+), (\w+)\) in ([\w.]+)\.iter_mut\(\)\.enumerate\(\) \{",
                                              r"let mut \1_it: usize = 0; while \1_it < \3.len() { let \1 = \1_it; \1_it = \1_it + 1; let \2 = &mut \3[\1];"),
                         "rewrite_iter_mut": (r"for (\w+) in ([\w.]+)\.iter_mut\(\) \{",
+                                             r"let mut \1_it: usize = 0; while \1_it < \2.len() { let \1_ix = \1_it; \1_it = \1_it + 1; let \1 = &mut \2[\1_ix];"),
+                        "rewrite_iter_mut_ref": (r"for (\w+) in &mut ([\w.]+) \{",
                                              r"let mut \1_it: usize = 0; while \1_it < \2.len() { let \1_ix = \1_it; \1_it = \1_it + 1; let \1 = &mut \2[\1_ix];"),
                         "rewrite_iter": (r"for (\w+) in ([\w.]+)\.iter\(\) \{",
                                          r"let mut \1_it: usize = 0; while \1_it < \2.len() { let \1_ix = \1_it; \1_it = \1_it + 1; let \1 = &\2[\1_ix];"),
@@ -570,6 +577,13 @@ class Gen:
         return sig[:ts] + f"({binder}: {ty})" + trailing_ws + tail
 
     def _emit_body(self, src, ob, body, body_mask, loops, injects, rewrites, rel_tpl, tags, fnname, rel, name):
+        # fragment-wide substitutions (std calls Verus cannot specify -> shim functions with assumed contracts)
+        for (pat, rep) in getattr(self, "substs", []):
+            body2, nsub = re.subn(pat, rep, body)
+            if nsub:
+                self.log.append(f"SUBST in {rel}::{name}: /{pat}/ => /{rep}/ x{nsub}")
+                body = body2
+                body_mask = code_mask(body)
         # logged rewrites (rules R1..R8) are applied to the repo text first
         for rw in rewrites:
             body2, nsub = re.subn(rw["pat"], rw["rep"].replace("\\n", "\n"), body)
